@@ -72,10 +72,10 @@ PROPS = {
         "profiles": {"quick": ["mon"], "thorough": ["mon", "monrel"]},
         "scale": {"quick": 1, "thorough": 40},
         "floors": {
-            "quick": {"compilations": 5000, "conditionings": 50000},
+            "quick": {"compilations": 5000, "conditionings": 50000, "compilations_in_a_used_builder": 1200, "builder_literals": 10000},
             "thorough": {"compilations": 200000},
         },
-        "rule": "One evaluation = one top-down compilation (StandardDecisionNNFBuilder or SemanticDecisionNNFBuilder over the 64-bit prime) of a generated CNF under a decision order: the result is walked structurally into a truth table and compared with the harness's evaluation of the clause list; is_false() must coincide with unsatisfiability; no node's variable may re-occur below it (no path decides a variable twice); condition(r,v,b) and condition(!r,v,b) are compared with the cofactor for every variable and value. Regime allorders: every permutation of the variables for CNFs over <= 4 variables; rand: random permutations, <= 9 variables, both stores on the same input. CNFs are biased to unit clauses, implication chains with a unit at one end, UNSAT cores found only after branching, and the same clause pattern on two disjoint variable blocks (component-cache hits); empty formula, empty clauses, tautological clauses and duplicate literals occur. Non-trivial = function neither constant nor literal; distinct = distinct (function, order, store) triples.",
+        "rule": "One evaluation = one top-down compilation (StandardDecisionNNFBuilder or SemanticDecisionNNFBuilder over the 64-bit prime) of a generated CNF under a decision order: the result is walked structurally into a truth table and compared with the harness's evaluation of the clause list; is_false() must coincide with unsatisfiability; no node's variable may re-occur below it (no path decides a variable twice); condition(r,v,b) and condition(!r,v,b) are compared with the cofactor for every variable and value. Regime allorders: every permutation of the variables for CNFs over <= 4 variables; rand: random permutations, <= 9 variables, both stores on the same input; reuse: ONE builder compiles 3-5 related CNFs over the same variables one after the other (the first one again at the end), every result checked as above and every earlier result re-walked after each later compilation; TopDownBuilder::var literals are checked too. CNFs are biased to unit clauses, implication chains with a unit at one end, UNSAT cores found only after branching, and the same clause pattern on two disjoint variable blocks (component-cache hits); empty formula, empty clauses, tautological clauses and duplicate literals occur. Non-trivial = function neither constant nor literal; distinct = distinct (function, order, store) triples.",
         "exhaustive_note": "for CNFs over <= 4 variables every permutation of the variables is used as decision order; the CNFs themselves are sampled",
         "assumptions": ASSUME_COMMON + ["semantic-hash store: a 64-bit hash collision would be a false alarm with probability ~2^-50 per run; none has been observed"],
     },
@@ -189,10 +189,11 @@ PROPS = {
         "floors": {
             "quick": {"lru_gets": 300000, "lru_hits": 10000, "lru_overwrites": 100000, "lru_histories_with_growth": 300,
                       "paired_results": 30000, "paired_histories_with_overwrites": 500, "paired_histories_with_cache_growth": 300,
-                      "cold_replays": 3000},
+                      "cold_replays": 3000, "ite_table_gets": 40000, "ite_table_lru_hits": 15000, "ite_table_lru_overwrites": 30000,
+                      "ite_table_lru_grows": 300},
             "thorough": {"lru_gets": 8000000},
         },
-        "rule": "Three monitors. (a) util::lru::Lru<K,V> driven directly: 50-2500 random insert/get operations per cache on 2-200 keys, initial capacity 2^0..2^6 slots, hashes a function of the key chosen adversarially (spread, 5 buckets, equal low bits that separate only after growth, collisions up to a capacity); every inserted value is fresh, so a stale or foreign value is distinguishable; model = HashMap key -> last value; get must return None or exactly the model's value. (b) The same generated BDD operation history is executed on RobddBuilder<AllIteTable> and on RobddBuilder<LruIteTable> whose cache starts at 2^0..2^4 slots (hook) and whose unique table starts at 2..64 slots; after every operation the two results must have the same canonical serialisation (isomorphism class incl. complement marks). (c) SDD: every 3rd operation of a long-lived CompressionSddBuilder (warm apply and ite caches) is redone in a fresh builder on operands rebuilt from their truth tables by Shannon expansion, and the isomorphism classes must agree. Floors require overwrites, cache growth and cache hits to have been observed. evaluations = caches / paired histories / SDD histories; all non-trivial; distinct = distinct inputs.",
+        "rule": "Four monitors. (a') the two ITE-cache adapters LruIteTable / AllIteTable driven directly through the public IteTable trait (insert / get / hash) on standard triples over a pool of real BDD pointers, as IteChoice, IteComplChoice and IteConst, with the adapter's own hash or caller-supplied colliding hashes (one hash per triple), initial capacity 2^0..2^4: get must return None (lossy) or the value most recently inserted for exactly that triple with the complement flag re-applied; AllIteTable must return exactly the model's value. (a) util::lru::Lru<K,V> driven directly: 50-2500 random insert/get operations per cache on 2-200 keys, initial capacity 2^0..2^6 slots, hashes a function of the key chosen adversarially (spread, 5 buckets, equal low bits that separate only after growth, collisions up to a capacity); every inserted value is fresh, so a stale or foreign value is distinguishable; model = HashMap key -> last value; get must return None or exactly the model's value. (b) The same generated BDD operation history is executed on RobddBuilder<AllIteTable> and on RobddBuilder<LruIteTable> whose cache starts at 2^0..2^4 slots (hook) and whose unique table starts at 2..64 slots; after every operation the two results must have the same canonical serialisation (isomorphism class incl. complement marks). (c) SDD: every 3rd operation of a long-lived CompressionSddBuilder (warm apply and ite caches) is redone in a fresh builder on operands rebuilt from their truth tables by Shannon expansion, and the isomorphism classes must agree. Floors require overwrites, cache growth and cache hits to have been observed. evaluations = caches / paired histories / SDD histories; all non-trivial; distinct = distinct inputs.",
         "assumptions": ASSUME_COMMON + ["the hash handed to the lossy cache is a function of the key, as in both ITE adapters"],
     },
     "C17": {
